@@ -120,7 +120,22 @@ pub fn exec_hook(c: &Case) -> Res {
             128 => u128::from(b),
             _ => usize::from(b) as u128,
         };
-        return Res::Ok(vec![Item::N(back)]);
+        macro_rules! consts {
+            ($t:ty) => {
+                (<$t>::from(Bit::Zero) as u128, <$t>::from(Bit::One) as u128)
+            };
+        }
+        let (z, o) = match c.a(1) {
+            1 => consts!(bool),
+            8 => consts!(u8),
+            16 => consts!(u16),
+            32 => consts!(u32),
+            64 => consts!(u64),
+            128 => consts!(u128),
+            _ => consts!(usize),
+        };
+        let chars = |b: Bit| -> Vec<u128> { format!("{}", b).chars().map(|ch| ch as u128).collect() };
+        return Res::Ok(vec![Item::N((b == Bit::One) as u128), Item::N(back), Item::N(z), Item::N(o), Item::L(chars(Bit::Zero)), Item::L(chars(Bit::One))]);
     }
     #[cfg(bva_verif)]
     {
